@@ -12,7 +12,7 @@ from marko.block import HTMLBlock
 from marko.ext import footnote
 from marko.ext.gfm import GFM
 from marko.ext.gfm import elements as gfm_elements
-from marko.helpers import partition_by_spaces
+from marko.helpers import is_paired, partition_by_spaces
 from marko.parser import Parser
 from marko.source import Source
 from typing_extensions import override
@@ -45,6 +45,17 @@ def _normalize_title_quotes(title: str) -> str:
     """
     escaped = title.strip('"').replace('"', '\\"')
     return f'"{escaped}"'
+
+
+def _render_link_dest(dest: str) -> str:
+    """
+    Render an inline link destination. The bare form cannot contain whitespace, angle
+    brackets or unbalanced parentheses, so use the `<...>` form for those.
+    """
+    if re.search(r"[\s<>]", dest) or not is_paired(dest):
+        escaped = dest.replace("<", "\\<").replace(">", "\\>")
+        return f"<{escaped}>"
+    return dest
 
 
 def _min_fence_length(code_content: str, fence_char: str = "`") -> int:
@@ -562,7 +573,7 @@ class MarkdownNormalizer(Renderer):
                 return f"[{label}]"
             return f"[{link_text}][{label}]"
         title = f" {link_title}" if link_title is not None else ""
-        return f"[{link_text}]({element.dest}{title})"
+        return f"[{link_text}]({_render_link_dest(element.dest)}{title})"
 
     def render_auto_link(self, element: inline.AutoLink) -> str:
         return f"<{element.dest}>"
@@ -570,7 +581,9 @@ class MarkdownNormalizer(Renderer):
     def render_image(self, element: inline.Image) -> str:
         template = "![{}]({}{})"
         title = f" {_normalize_title_quotes(element.title)}" if element.title else ""
-        return template.format(self.render_children(element), element.dest, title)
+        return template.format(
+            self.render_children(element), _render_link_dest(element.dest), title
+        )
 
     def render_literal(self, element: inline.Literal) -> str:
         """
